@@ -105,13 +105,20 @@ def showPols (l : List (String × Spec.Handlers.RPol)) : String := toString (l.m
 def checkRetry (j : Json) : Except String Verdict := do
   let ua ← jArr j "updates"
   let oa ← jArr j "obs"
+  let registerAt := jNatD j "registerAt" 0
   let F := Generated.handlers
   let mut st := retryInit
   let mut tables : List (String × List Spec.Handlers.RRouteS) := []
+  let mut cached : RUp := []        -- the manager's cache of named route tables (what a registration replays)
   let mut mm : Option String := none
   let mut sf : Option String := none
   let mut idx := 0
   let mut partialSeen := false
+  let canon (l : List (String × Spec.Handlers.RPol)) := (l.toArray.qsort (fun a b => a.1 < b.1)).toList
+  let modelOf (st : RetrySt) (implObs : List (String × Spec.Handlers.RPol)) : List (String × Spec.Handlers.RPol) :=
+    -- every key mentioned anywhere so far
+    let keys := (implObs.map (·.1) ++ (allRoutes st.cache).flatMap keysOf).eraseDups
+    keys.filterMap (fun k => (st.pol k).map (fun p => (k, ⟨p.maxRetry, p.maxDurationMs, p.errRate, showBackoff p.backoff⟩)))
   for (u, o) in ua.toList.zip oa.toList do
     let ts ← (← u.getArr?).toList.mapM (fun t => do
       let rs ← jArr t "routes"
@@ -119,17 +126,35 @@ def checkRetry (j : Json) : Except String Verdict := do
       pure ((← jStr t "n"), parsed))
     let up : RUp := ts.map (fun (n, rs) => (n, rs.map (·.1)))
     if idx > 0 && ts.length < 3 then partialSeen := true
-    st := retryUpdate F st up
+    if idx = registerAt && idx > 0 then
+      -- a container created after updates: the registration replays the cached tables (fact `replayOnRegister`)
+      st := if F.replayOnRegister then { (retryHandler retryInit cached) with cache := cached } else { retryInit with cache := cached }
+    if idx ≥ registerAt then st := retryUpdate F st up
+    cached := mergeTables cached up
     tables := (ts.map (fun (n, rs) => (n, rs.map (·.2)))) ++ tables.filter (fun e => !(ts.any (fun t => t.1 = e.1)))
-    let implObs := parseRetryObs ((jObj? o "retry").getD (Json.mkObj []))
-    -- model: every key mentioned anywhere so far
-    let keys := (implObs.map (·.1) ++ (allRoutes st.cache).flatMap keysOf).eraseDups
-    let model : List (String × Spec.Handlers.RPol) := keys.filterMap (fun k => (st.pol k).map (fun p =>
-      (k, ⟨p.maxRetry, p.maxDurationMs, p.errRate, showBackoff p.backoff⟩)))
-    let canon (l : List (String × Spec.Handlers.RPol)) := (l.toArray.qsort (fun a b => a.1 < b.1)).toList
-    if canon model != canon implObs && mm.isNone then
-      mm := some s!"update {idx + 1}: retry policies model {showPols (canon model)}, impl {showPols (canon implObs)}"
-    if sf.isNone then sf := (Spec.Handlers.c17 tables implObs).map (fun m => s!"{m} (after update {idx + 1})")
+    if idx ≥ registerAt then
+      match jObj? o "retry" with
+      | some (.obj _) =>
+        let implObs := parseRetryObs ((jObj? o "retry").getD (Json.mkObj []))
+        let model := modelOf st implObs
+        if canon model != canon implObs && mm.isNone then
+          mm := some s!"update {idx + 1}: retry policies model {showPols (canon model)}, impl {showPols (canon implObs)}"
+        if sf.isNone then sf := (Spec.Handlers.c17 tables implObs).map (fun m => s!"{m} (after update {idx + 1})")
+      | _ => if mm.isNone then mm := some s!"update {idx + 1}: no dump of the retry container"
+    else
+      match jObj? o "retry" with
+      | some (.obj _) => if mm.isNone then mm := some "retry dump before registration"
+      | _ => pure ()
+    -- state right after a late registration: derived from the cached tables alone
+    match jObj? o "afterRegister" with
+    | some ar =>
+      let implObs := parseRetryObs ar
+      let late : RetrySt := { (retryHandler retryInit cached) with cache := cached }
+      let model := modelOf late implObs
+      if canon model != canon implObs && mm.isNone then
+        mm := some s!"registration after update {idx + 1}: retry policies model {showPols (canon model)}, impl {showPols (canon implObs)}"
+      if sf.isNone then sf := (Spec.Handlers.c17 tables implObs).map (fun m => s!"{m} (container created after update {idx + 1})")
+    | none => pure ()
     idx := idx + 1
   return { nontrivial := partialSeen, mismatch := mm, specfail := sf }
 
